@@ -36,7 +36,7 @@ pub fn judge_case(c: &Case) -> Obs {
     if let Some(l) = proggen::fit_label(&c.spec) {
         obs.label(l);
     }
-    let rr = refvm::run(Vm::load(p.orig, &p.img.words, p.built.stack), &[], BUDGET, Some(0xFFFD));
+    let rr = refvm::run(Vm::load(p.orig, &p.img.words, p.built.stack), &[], BUDGET + proggen::extra_budget(&c.spec), Some(0xFFFD));
     match &rr.stop {
         RunStop::OutOfFuel => {
             obs.excluded = Some("program does not terminate within the budget");
@@ -107,7 +107,7 @@ fn cases() -> impl Strategy<Value = Case> {
         }),
         4..40,
     );
-    let spec = crate::pick![5 => proggen::prog_spec(12).boxed(), 1 => proggen::raw_image_spec(super::c03::image_words()).boxed()];
+    let spec = crate::pick![5 => proggen::with_spin(proggen::prog_spec(12)).boxed(), 1 => proggen::raw_image_spec(super::c03::image_words()).boxed()];
     (spec, ending, crate::pick![3 => mixed, 2 => steppy], 0u8..3).prop_map(|(mut spec, ending, cmds, end)| {
         spec.ending = ending;
         Case { spec, cmds, end }
